@@ -168,7 +168,7 @@ fn u4_classes(p: &N, pinv_neg: &N, rm: &N, x: &F2, y: &F2) -> u32 {
 
 pub fn run(run: &Run) {
     let p = q().clone();
-    let cnt = run.tier.pick(14, 48);
+    let cnt = run.tier.pick(14, 80);
     let al = fq2_alpha(cnt, run.seed);
     let lv: Vec<Fq2> = al.iter().map(fq2).collect();
     let nn = al.len() as u64;
@@ -257,7 +257,7 @@ pub fn meta(run: &Run) -> Meta {
                carry limb u4 (both reachable classes required). Alphabets are de-duplicated; a case is non-trivial unless all operands are 0."
             .into(),
         engine: "sm9mc-grid".into(),
-        bounds: json!({"components": run.tier.pick(14, 48)}),
+        bounds: json!({"components": run.tier.pick(14, 80)}),
         assumptions: vec![],
     }
 }
